@@ -123,6 +123,9 @@ func (w *fwalk) val(v reflect.Value, addr bool, depth int, omitempty bool) {
 		return
 	}
 	t := v.Type()
+	if Methods(t) != 0 {
+		w.f["methods"] = true
+	}
 	if m := Methods(t); m != 0 && t.Kind() != reflect.Ptr {
 		if m&(2|8) != 0 && !addr {
 			w.f["ptrrecv-nonaddr"] = true // pointer-receiver Marshal method on a non-addressable value: encoding/json does not call it
